@@ -249,6 +249,7 @@ def _log(x):
 
 
 @ops.logaddexp.register(torch.Tensor, torch.Tensor)
+@ops.sample.register(torch.Tensor, torch.Tensor)
 def _safe_logaddexp_tensor_tensor(x, y):
     finfo = torch.finfo(x.dtype)
     shift = torch.max(x.detach(), y.detach()).clamp(min=finfo.min)
@@ -256,6 +257,7 @@ def _safe_logaddexp_tensor_tensor(x, y):
 
 
 @ops.logaddexp.register(numbers.Number, torch.Tensor)
+@ops.sample.register(numbers.Number, torch.Tensor)
 def _safe_logaddexp_number_tensor(x, y):
     finfo = torch.finfo(y.dtype)
     shift = y.detach().clamp(min=max(x, finfo.min))
@@ -263,6 +265,7 @@ def _safe_logaddexp_number_tensor(x, y):
 
 
 @ops.logaddexp.register(torch.Tensor, numbers.Number)
+@ops.sample.register(torch.Tensor, numbers.Number)
 def _safe_logaddexp_tensor_number(x, y):
     return _safe_logaddexp_number_tensor(y, x)
 
